@@ -591,3 +591,4 @@ def run(ctx):
     import codecrules
     codecrules.emit_symbol_law(ctx, prog, 'C05')
     codecrules.emit_state_signatures(ctx, prog, 'C05')
+    codecrules.unrle_walk(ctx, prog, 'C05')
